@@ -1,5 +1,9 @@
 import Bpp
 #print axioms Bpp.spec_complete
-#print axioms Bpp.range_reduction
-#print axioms Bpp.wip_complete
-#check @Bpp.spec_complete
+#print axioms Bpp.contribution_eq
+#print axioms Bpp.verdict_iff
+#print axioms Bpp.code_accepts_honest
+#print axioms Bpp.sCode_eq_sProd
+#print axioms Bpp.dCode_eq_dvec
+#print axioms Bpp.dSum_code
+#print axioms Bpp.ySum_code
